@@ -136,6 +136,7 @@ Step ==
        [] o.op = "RA" -> DoRA(s, hist, "RA")
        [] o.op = "RL" -> DoRA(s, hist, "RA")
        [] o.op = "SRD" -> s' = s /\ hist' = hist
+       [] o.op = "WCL" -> s' = WCLNext(s) /\ hist' = hist
        [] o.op = "JA" ->
             LET j == JALoop(s, << >>, << >>, << >>, 0, o.k) IN
             /\ s' = JANext(j, CanonErr(j.w))
@@ -234,13 +235,14 @@ InvOverLimit ==
 
 (* C03: a program of ReadMessage calls on a fault-free conformant stream   *)
 (* yields exactly the messages of the stream.                              *)
-AllRM == \A i \in 1..Len(prog) : prog[i].op \in {"RM", "JA", "RJ"}
+AllRM == \A i \in 1..Len(prog) : prog[i].op \in {"RM", "JA", "RJ", "WCL"}
+NReads == Cardinality({i \in 1..Len(prog) : prog[i].op # "WCL"})
 Conformant == Bad = 0 /\ cut.frame = 0 /\ \A i \in 1..Len(fr) : fr[i].lk = "n" /\ fr[i].arr = "full"
 InvDecode ==
   (pc > Len(prog) /\ AllRM /\ Conformant /\ (Lim = 0 \/ AllWithin) /\ cfg.hmode # "err") =>
      LET done == SelectSeq(hist, LAMBDA h : Completed(h))
          want == SelectSeq(Msgs, LAMBDA m : m.complete)
-         k == Min(Len(want), Len(prog))
+         k == Min(Len(want), NReads)
      IN /\ Len(done) >= Min(k, Len(want))
         /\ \A i \in 1..Len(done) : done[i].start = want[i].start /\ (done[i].op = "JA" \/ done[i].n = want[i].len)
 =============================================================================
